@@ -116,7 +116,7 @@ def _one(args):
     tmp = tempfile.mkdtemp(prefix="tu.", dir=CACHE)
     try:
         bc = os.path.join(tmp, "a.bc"); ssa = os.path.join(tmp, "b.bc")
-        if optlevel == "O0":
+        if optlevel in ("O0", "O0raw"):
             cmd = ["clang-14", "-O0", "-g", "-Xclang", "-disable-O0-optnone", "-fno-discard-value-names",
                    "-emit-llvm", "-c", "-w"] + fl + [tu, "-o", bc]
         else:
@@ -124,8 +124,9 @@ def _one(args):
         rc, o, e = _run(cmd, cwd=src)
         if rc != 0:
             return tu, None, False, "clang: " + e.decode(errors="replace")[-600:]
-        if optlevel == "O0":
-            rc, o, e = _run(["opt-14", "-passes=" + OPT_PASSES, bc, "-o", ssa])
+        if optlevel in ("O0", "O0raw"):
+            # 'O0raw': SSA construction only -- no simplification may use a dereference to delete a later null test (null_order_rule of C05)
+            rc, o, e = _run(["opt-14", "-passes=" + (OPT_PASSES if optlevel == "O0" else "mem2reg"), bc, "-o", ssa])
             if rc != 0:
                 return tu, None, False, "opt: " + e.decode(errors="replace")[-600:]
         else:
@@ -249,15 +250,15 @@ def _one_abs(tu, flags, key, optlevel):
     tmp = tempfile.mkdtemp(prefix="tu.", dir=CACHE)
     try:
         bc = os.path.join(tmp, "a.bc"); ssa = os.path.join(tmp, "b.bc")
-        if optlevel == "O0":
+        if optlevel in ("O0", "O0raw"):
             cmd = ["clang-14", "-O0", "-g", "-Xclang", "-disable-O0-optnone", "-fno-discard-value-names", "-emit-llvm", "-c", "-w"] + flags + [tu, "-o", bc]
         else:
             cmd = ["clang-14", "-" + optlevel, "-g", "-fno-discard-value-names", "-emit-llvm", "-c", "-w"] + flags + [tu, "-o", bc]
         rc, o, e = _run(cmd)
         if rc != 0:
             return tu, None, e.decode(errors="replace")[-600:]
-        if optlevel == "O0":
-            rc, o, e = _run(["opt-14", "-passes=" + OPT_PASSES, bc, "-o", ssa])
+        if optlevel in ("O0", "O0raw"):
+            rc, o, e = _run(["opt-14", "-passes=" + (OPT_PASSES if optlevel == "O0" else "mem2reg"), bc, "-o", ssa])
             if rc != 0:
                 return tu, None, e.decode(errors="replace")[-600:]
         else:
